@@ -6,13 +6,13 @@ T = {
  "C01": ("proof", "Coq: C01_cell / C01_layout (every operation sequence on a ledger cell, exact rationals); C01_schedule, C01_alap (no (resource, slot) twice, forward and backward slot models); C01_subslot, C01_subslot_teams (the cell invariant holds in EVERY cell of every final ledger of the second-granularity models). Tie: operation sequences on the real bookResource/release code vs the extracted cell model; generated projects vs the extracted slot / second-granularity / team models; ledger oracle", "3.C01"),
  "C02": ("proof", "Coq: regenerated Python and Cython interval tests = declarative hours spec incl. cross-midnight; C02_schedule, C02_alap, C02_subslot(_teams) (bookings only in working slots); C02_calendar (calendar computed inside the model from hours, leaves, vacations, holidays, blocking bookings). Tie: translator; calendar recomputed by the harness (zoneinfo is an oracle); model correspondence. Known finding K01", "3.C02"),
  "C03": ("proof", "Coq: C03_exact_slots, C03_alap (exactly t_need whole-team blocks); C03_release (cell); C03_subslot (second granularity: one entry per booked slot, none elsewhere, effort - 3.6us <= sum x efficiency <= effort); C03_subslot_teams (every member the same seconds in every slot). Tie: extracted models vs implementation (dates to the second, ledger to the millisecond) + oracle (alternatives, ALAP at second granularity: oracle only)", "3.C03"),
- "C04": ("proof", "Coq: C04_asap, C04_alap (backward scheduler = mirror of the forward model), C04_subslot (gaps in seconds, mid-slot bounds). Tie: model correspondence on forward, backward and second-granularity projects + oracle (task-level ALAP: oracle only)", "3.C04"),
- "C05": ("proof", "Coq: regenerated period index = calendar day / Monday week for all starts and slots; C05_schedule, C05_alap (usage <= value per limit and period); C05_subslot / C05_subslot_ledger (second granularity: a limit counts bookings; the cells holding counted work in a period are at most value many). Tie: translator + model correspondence + per-day / per-ISO-week aggregation of the implementation's ledger", "3.C05"),
- "C06": ("proof", "Coq: C06_frame, C06_alap (start < end, team booked in first and last slot, all bookings inside [start, end)); C06_subslot (+ overlap clauses of C03_subslot). Tie: model correspondence + oracle (position inside shared slots via C01_layout; ALAP at second granularity: oracle)", "3.C06"),
+ "C04": ("proof", "Coq: C04_asap, C04_alap (backward scheduler = mirror of the forward model), C04_subslot, C04_subslot_teams (gaps in seconds, mid-slot bounds; teams with limits). Tie: model correspondence on forward, backward and second-granularity projects + oracle (task-level ALAP: oracle only)", "3.C04"),
+ "C05": ("proof", "Coq: regenerated period index = calendar day / Monday week for all starts and slots; C05_schedule, C05_alap (usage <= value per limit and period); C05_subslot / C05_subslot_ledger, C05_subslot_teams / C05_subslot_teams_ledger (second granularity, one resource and teams with tentative counting: a limit counts bookings; the cells holding counted work in a period are at most value many). Tie: translator + model correspondence + per-day / per-ISO-week aggregation of the implementation's ledger", "3.C05"),
+ "C06": ("proof", "Coq: C06_frame, C06_alap (start < end, team booked in first and last slot, all bookings inside [start, end)); C06_subslot (+ overlap clauses of C03_subslot), C06_subslot_teams (start <= end for teams with limits). Tie: model correspondence + oracle (position inside shared slots via C01_layout; ALAP at second granularity: oracle)", "3.C06"),
  "C07": ("proof", "the extracted Coq list scheduler (Model/Sched.v) is the reference implementation the property names; Coq: C07_earliest_fit. Tie: every project of the bounded universe (thorough) / a sample (quick) + random core projects; every disagreement is a failing input", "3.C07"),
  "C08": ("proof", "Coq: C08_asap, C08_alap (single unlimited resource), C08_asap_teams_and_limits, C08_alap_teams_and_limits (skipped slot => member off, member booked elsewhere, or a limit without room for the team, stated on the final ledger), C08_subslot (second granularity: skipped slot is non-working, full or closed by a limit in the final ledger). Tie: model correspondence + oracles c08 / c08_team", "3.C08"),
- "C09": ("proof", "Coq: C09_lowest_priority_harmless (simulation of the two runs), C09_served_last, C09_alap. Tie: two-run comparison on the implementation for random intruders (any declaration position, forward and backward)", "3.C09"),
- "C10": ("proof", "Coq: C10_summary, C10_alap, C10_subslot (container dates iff all leaves placed; min start / max end), C10_leaf_only. Tie: model correspondence on random trees + oracle at every nesting level (resource groups in allocations, containers of dated milestones)", "3.C10"),
+ "C09": ("proof", "Coq: C09_lowest_priority_harmless (simulation of the two runs), C09_served_last, C09_alap, C09_subslot (the same simulation at second granularity: efforts and offsets inside slots, limits counting bookings). Tie: two-run comparison on the implementation for random intruders (any declaration position, forward and backward)", "3.C09"),
+ "C10": ("proof", "Coq: C10_summary, C10_alap, C10_subslot, C10_subslot_teams (container dates iff all leaves placed; min start / max end), C10_leaf_only. Tie: model correspondence on random trees + oracle at every nesting level (resource groups in allocations, containers of dated milestones)", "3.C10"),
  "C11": ("proof", "Coq: the models are total functions on structural fuel; C11_slots_in_horizon, C11_dates_in_horizon, C11_alap, C11_subslot. Partial: Lark, the transformer and everything before the scheduler are exercised by the infeasible-project generator and corrupted texts in isolated workers with time limits (testing, labelled so)", "3.C11"),
  "C12": ("proof", "Coq: C12_history (result independent of the process-global state left by any history), C12_needs_reset, C12_reschedule. Tie: histories in one interpreter, hash seeds, repeated schedule() on the implementation (partial: parser-object reuse, report bytes by runs)", "3.C12"),
  "C14": ("proof", "Coq: C14_working_table, C14_period_table, C14_period_index (invariant under whole-week shifts, no case analysis on month/year ends). Tie: shifted / unshifted runs for 13 offsets up to 300 weeks incl. year-end vacations and month bookings", "3.C14"),
